@@ -75,6 +75,7 @@ class FnSpec:
         self.self_cls = kw.get('self_cls')      # verify the body for these receiver classes (default: defining class)
         self.note = kw.get('note', '')
         self.public = kw.get('public', False)
+        self.callee_rejects = list(kw.get('callee_rejects') or [])   # implementor methods that may reject the call (abstraction of the implementors not under contract)
         self.twins = kw.get('twins')            # lemma programs over two objects of one class: split both alike
         self.chain = kw.get('chain', False)     # lemma programs: each ensures clause may use the ones before it
 
